@@ -235,7 +235,7 @@ func runC16SFTP(c *fw.Case) {
 }
 
 func runC16(c *fw.Case) {
-	if desyncBin() != "" && c.Chance(1, procRate(120), "c16.proc") {
+	if desyncBin() != "" && c.ChanceAdded(1, procRate(120), "c16.proc") {
 		runC16Proc(c)
 		return
 	}
